@@ -50,6 +50,9 @@ pub struct ShapeWriter<T: Write + Seek> {
     header: header::Header,
     rec_num: u32,
     dirty: bool,
+    // true while the destinations may be positioned somewhere in their
+    // headers: from the start of a finalize until it has completed
+    repositioning_needed: bool,
 }
 
 impl<T: Write + Seek> ShapeWriter<T> {
@@ -63,6 +66,7 @@ impl<T: Write + Seek> ShapeWriter<T> {
             header: header::Header::default(),
             rec_num: 1,
             dirty: true,
+            repositioning_needed: false,
         }
     }
 
@@ -73,6 +77,7 @@ impl<T: Write + Seek> ShapeWriter<T> {
             header: Default::default(),
             rec_num: 1,
             dirty: true,
+            repositioning_needed: false,
         }
     }
 
@@ -125,6 +130,18 @@ impl<T: Write + Seek> ShapeWriter<T> {
                 });
             }
             _ => {}
+        }
+
+        if self.repositioning_needed {
+            // A finalize failed half way: go back behind the last record
+            // and the last index entry before appending
+            self.shp_dest
+                .seek(SeekFrom::Start(self.header.file_length as u64 * 2))?;
+            if let Some(shx_dest) = &mut self.shx_dest {
+                let shx_length = header::HEADER_SIZE as u64 + (self.rec_num - 1) as u64 * 8;
+                shx_dest.seek(SeekFrom::Start(shx_length))?;
+            }
+            self.repositioning_needed = false;
         }
 
         let record_size = (shape.size_in_bytes() + std::mem::size_of::<i32>()) / 2;
@@ -211,6 +228,7 @@ impl<T: Write + Seek> ShapeWriter<T> {
             self.header.bbox.min.z = 0.0;
         }
 
+        self.repositioning_needed = true;
         self.shp_dest.seek(SeekFrom::Start(0))?;
         self.header.write_to(&mut self.shp_dest)?;
         // Go back to where the next record goes. That is right behind the last
@@ -230,6 +248,7 @@ impl<T: Write + Seek> ShapeWriter<T> {
             shx_dest.flush()?;
         }
         self.dirty = false;
+        self.repositioning_needed = false;
         Ok(())
     }
 }
